@@ -60,10 +60,21 @@ def check_io(conf, G, nodes, times, P, PP, combo, serial, d5_lost):
         bad('last-line-not-terminated', {'tail': repr(raw[-30:])})
     st = list(G.stream_interactions())
     want_rows = [d.join(map(str, ev)) for ev in st]
-    if rows != want_rows:
-        same_multiset = sorted(rows) == sorted(want_rows)
-        bad('rows-differ-from-stream', {'rows': repr(rows[:6]), 'stream rows': repr(want_rows[:6])}, reordered=same_multiset,
+    # the rows are the stream's events, in chronological order; the order of rows sharing one instant is not constrained
+    def _times(rs):
+        out = []
+        for r in rs:
+            try:
+                out.append(int(r.split(d)[-1]))
+            except Exception:
+                return None
+        return out
+    rt = _times(rows)
+    if sorted(rows) != sorted(want_rows):
+        bad('rows-differ-from-stream', {'rows': repr(rows[:6]), 'stream rows': repr(want_rows[:6])}, reordered=False,
             fewer=len(rows) < len(want_rows), more=len(rows) > len(want_rows))
+    elif rt is None or any(a > b for a, b in zip(rt, rt[1:])):
+        bad('rows-not-chronological', {'rows': repr(rows[:8])})
     nt = nodetype_of(conf)
     ckw = {'comments': U.FLAVOURS[conf['flavour']]['comments']} if 'comments' in U.FLAVOURS[conf['flavour']] else {}
     try:
